@@ -356,6 +356,15 @@ func (l Loader) form(opcode string, f opcodesxml.Form) inst.Form {
 		ops[len(ops)-1].Action |= inst.R
 	}
 
+	// Opcodes database marks horizontal subtract as having cancelling inputs,
+	// but the differences are taken between adjacent elements, so the result
+	// for identical operands still depends on the register.
+	cancelling := f.CancellingInputs
+	switch opcode {
+	case "PHSUBD", "PHSUBW", "PHSUBSW", "VPHSUBD", "VPHSUBW", "VPHSUBSW":
+		cancelling = false
+	}
+
 	// Extract implicit operands.
 	var implicits []inst.ImplicitOperand
 	for _, implicit := range f.ImplicitOperands {
@@ -378,7 +387,7 @@ func (l Loader) form(opcode string, f opcodesxml.Form) inst.Form {
 		Operands:         ops,
 		ImplicitOperands: implicits,
 		EncodingType:     enctype(f),
-		CancellingInputs: f.CancellingInputs,
+		CancellingInputs: cancelling,
 	}
 }
 
